@@ -60,16 +60,12 @@ Definition kf17_names (fn : node) : list string := flat_map (fold_nodes kf17_of)
 
 (* reads that must be warned about: a demanded Load of a name bound nowhere in the file (and not a
    builtin), or of a local variable after `del` of that variable *)
-(* finding KF_C17_6: an assignment to an attribute or an item of a name (`x.y = v`, `x[i] = v`) registers the name x
-   itself (the targets are unravelled to their base names) - before the right-hand side is visited - so a read of x
-   that Python would reject (x deleted or never bound) is not warned about in a function that has such a target *)
-Definition attr_store_bases (fn : node) : list string :=
-  flat_map (fold_nodes (fun n => match n with EAttr _ _ Store _ | ESub _ _ Store _ => [spell_base n] | _ => [] end)) (body_of fn).
-
+(* (KF_C17_6, repaired: an assignment to an attribute or an item of a name no longer registers the name, so such
+   functions are judged like all others) *)
 Definition must_warn (k : fa_case) : list site :=
   let everywhere := bound_anywhere (globals_of (fc_ctx k)) (fc_fn k) in
   let locals := fn_params (fc_fn k) ++ flat_map (fold_nodes binders_of) (body_of (fc_fn k)) in
-  filter (fun s => st_demanded s && negb (st_bound s) && negb (mem (st_name s) (attr_store_bases (fc_fn k)))
+  filter (fun s => st_demanded s && negb (st_bound s)
                    && (negb (mem (st_name s) everywhere)
                        || (st_deleted s && mem (st_name s) locals && negb (mem (st_name s) (globals_of (fc_ctx k))))))
          (sites_for k).
